@@ -57,9 +57,10 @@ def run(ctx, obs):
     from ..rules.containers import stable_sorts
     if stable_sorts(ctx, obs, 'rdm.compare._sort_and_rank') == 0:
         obs.unk('SORT-stable', 'rdm.compare._sort_and_rank', 'argsort', 'no argsort call')
-    from ..rules.ranks import tie_averaged
+    from ..rules.ranks import tie_averaged, ranked_on_all_paths
     for _fn in ('compare_spearman', 'compare_rho_a'):
         tie_averaged(ctx, obs, 'rdm.compare.' + _fn)
+        ranked_on_all_paths(ctx, obs, 'rdm.compare.' + _fn)
     from ..rules import sweeps
     sweeps.run(ctx, obs, 'C03')
     prog = ctx.prog
